@@ -49,7 +49,7 @@ SIZE_LIMIT = 160
 
 
 class Val:
-    __slots__ = ('ast', 'tags', 'const', 'elems', 'closure', '_text', 'size', 'fields', 'items', 'partial')
+    __slots__ = ('ast', 'tags', 'const', 'elems', 'closure', '_text', 'size', 'fields', 'items', 'partial', 'obj', 'bound', 'recv')
 
     def __init__(self, node, tags=frozenset(), const=NOCONST, elems=None, closure=None, parts=None, site=None):
         """parts: the component values the node was built from (their sizes bound the size of this value; a value
@@ -73,6 +73,9 @@ class Val:
         self.fields = None      # record (namedtuple) value: field names, positions as in elems
         self.items = None       # dict display: [(key Val, value Val)]
         self.partial = None     # functools.partial(f, *a, **k): ([a...], {k...}) bound ahead of the call's own arguments
+        self.obj = None         # (class name, object number): an instance of a private helper class created on this path (attributes: Path.heap)
+        self.bound = False      # a method value whose receiver is partial[0][0]
+        self.recv = None        # value of `x` for an attribute value `x.attr`
 
     @property
     def text(self):
@@ -82,7 +85,7 @@ class Val:
 
     def with_tags(self, tags):
         v = Val(self.ast, self.tags | frozenset(tags), self.const, self.elems, self.closure, parts=[self])
-        v.fields, v.items, v.partial = self.fields, self.items, self.partial
+        v.fields, v.items, v.partial, v.obj, v.bound = self.fields, self.items, self.partial, self.obj, self.bound
         return v
 
     def __repr__(self):
@@ -125,6 +128,7 @@ class Path:
         self.status = None   # None running / 'return' / 'raise' / 'break' / 'continue'
         self.ret = None
         self.loop = 0
+        self.heap = {}       # object number -> {attribute: Val}; None = the object escaped to code that was not interpreted
 
     budget = None   # shared mutable [remaining forks]; set by the Tracer
 
@@ -140,6 +144,7 @@ class Path:
         p.status = self.status
         p.ret = self.ret
         p.loop = self.loop
+        p.heap = {k: (dict(v) if v is not None else None) for k, v in self.heap.items()}
         return p
 
     def has_fact(self, text, polarity):
@@ -648,6 +653,10 @@ class Tracer:
         elif isinstance(target, (ast.Attribute, ast.Subscript)):
             tv = self._sub(target, p)
             p.events.append(Event('store', target=norm(tv), value=v, node=stmt, fn=fi.qualname, facts=tuple(p.facts)))
+            if isinstance(target, ast.Attribute) and isinstance(target.value, ast.Name):
+                ov = p.env.get(target.value.id)
+                if ov is not None and ov.obj is not None and p.heap.get(ov.obj[1]) is not None:
+                    p.heap[ov.obj[1]][target.attr] = v
         elif isinstance(target, ast.Starred):
             self._bind(target.value, v, p, fi, stmt)
 
@@ -726,10 +735,23 @@ class Tracer:
         if isinstance(e, ast.Attribute):
             outs = []
             for q, b in self._expr(e.value, p, fi, depth):
+                if not store and b.obj is not None:
+                    hv = q.heap.get(b.obj[1])
+                    if hv is not None and e.attr in hv:
+                        outs.append((q, hv[e.attr]))          # attribute of an object created on this path
+                        continue
+                    tm = self.repo.resolve(b.obj[0], e.attr) if b.obj[0] in self.repo.classes else None
+                    if tm is not None and not tm.is_property and not tm.is_static and not tm.is_classmethod:
+                        mv = Val(ast.Attribute(value=b.ast, attr=e.attr, ctx=ast.Load()), tags=b.tags, closure=(tm, None))
+                        mv.partial = ([b], {})
+                        mv.bound = True
+                        outs.append((q, mv))
+                        continue
                 if not store and b.fields is not None and b.elems is not None and e.attr in b.fields:
                     outs.append((q, b.elems[b.fields.index(e.attr)]))       # field of a record (namedtuple) built on this path
                     continue
                 v = Val(ast.Attribute(value=b.ast, attr=e.attr, ctx=ast.Load()), tags=b.tags)
+                v.recv = b
                 if not store and isinstance(b.ast, ast.Name) and b.ast.id == 'self' and fi.cls is not None:
                     # a bound method of the same class used as a value (callback): can be inlined / traced when it is called
                     t = self.repo.resolve(fi.cls.name, e.attr)
@@ -852,7 +874,9 @@ class Tracer:
             outs = []
             for q, acc in cur:
                 val = Val(ast.Compare(left=acc[0].ast, ops=e.ops, comparators=[x.ast for x in acc[1:]]), tags=frozenset().union(*[x.tags for x in acc]))
-                if len(acc) == 2 and isinstance(e.ops[0], (ast.Is, ast.IsNot)) and acc[0].const is not NOCONST and acc[1].const is not NOCONST \
+                if len(acc) == 2 and isinstance(e.ops[0], (ast.Is, ast.IsNot)) and ((acc[0].const is None and _never_none(acc[1])) or (acc[1].const is None and _never_none(acc[0]))):
+                    val.const = isinstance(e.ops[0], ast.IsNot)      # arithmetic / comparison results, displays, f-strings are never None
+                elif len(acc) == 2 and isinstance(e.ops[0], (ast.Is, ast.IsNot)) and acc[0].const is not NOCONST and acc[1].const is not NOCONST \
                         and (acc[0].const is None or acc[1].const is None or isinstance(acc[0].const, bool)):
                     same = acc[0].const is acc[1].const
                     val.const = same if isinstance(e.ops[0], ast.Is) else not same
@@ -877,6 +901,80 @@ class Tracer:
         if isinstance(e, (ast.Yield, ast.YieldFrom, ast.Await)):
             return self._expr(e.value, p, fi, depth) if e.value is not None else [(p, const_val(None))]
         raise AnalysisError('tracer: expression %s not supported (%s)' % (type(e).__name__, fi.qualname))
+
+    def _plain_class(self, name, fi):
+        """ClassInfo of a private helper class of the package that `name` denotes in fi's module (a record / small state holder:
+        not a node, not an exception, no metaclass, no external base) - or None"""
+        ci = fi.module.classes.get(name)
+        if ci is None:
+            imp = fi.module.imports.get(name)
+            if imp and ':' in imp and imp.split(':')[1] in self.repo.classes:
+                ci = self.repo.classes[imp.split(':')[1]]
+        if ci is None or ci.outer is not None or ci.metaclass is not None or not ci.simple_name.startswith('_'):
+            return None
+        mro = self.repo.mro(ci.name)
+        if any(b not in self.repo.classes and b != 'object' for b in mro[1:]):
+            return None
+        if 'ConfigNode' in mro or any(b.endswith(('Error', 'Exception')) for b in mro):
+            return None
+        if any(m in ('__getattr__', '__getattribute__', '__setattr__', '__new__') for b in mro if b in self.repo.classes for m in self.repo.classes[b].methods):
+            return None
+        return ci
+
+    def _construct_local(self, e, name, p, fi, depth, args, kw):
+        """`_Helper(...)`: a fresh object of a private helper class; its attributes live in the path's heap, its methods are inlined"""
+        ci = self._plain_class(name, fi)
+        if ci is None or any(isinstance(a.ast, ast.Starred) for a in args) or any(k.startswith('**') for k in kw):
+            return None
+        decos = [unparse(d) for d in ci.node.decorator_list]
+        is_dc = any(d.split('(')[0] in ('dataclass', 'dataclasses.dataclass') for d in decos)
+        if ci.node.decorator_list and not is_dc:
+            return None
+        self._n_obj = getattr(self, '_n_obj', 0) + 1
+        oid = self._n_obj
+        ov = Val(ast.Call(func=ast.Name(id=name, ctx=ast.Load()), args=[a.ast for a in args], keywords=[ast.keyword(arg=k, value=v.ast) for k, v in kw.items()]),
+                 tags=frozenset().union(*([a.tags for a in args] + [v.tags for v in kw.values()])) if (args or kw) else frozenset(), parts=list(args) + list(kw.values()))
+        ov.obj = (ci.name, oid)
+        p.heap[oid] = {}
+        if is_dc:
+            if '__init__' in ci.methods:
+                return None
+            fields = [(st.target.id, st.value) for st in ci.node.body if isinstance(st, ast.AnnAssign) and isinstance(st.target, ast.Name) and 'ClassVar' not in unparse(st.annotation)]
+            if len(args) > len(fields) or any(k not in [f_ for f_, _ in fields] for k in kw):
+                return None
+            for i, (fname, dflt) in enumerate(fields):
+                if i < len(args):
+                    p.heap[oid][fname] = args[i]
+                elif fname in kw:
+                    p.heap[oid][fname] = kw[fname]
+                elif isinstance(dflt, ast.Constant):
+                    p.heap[oid][fname] = const_val(dflt.value)
+                elif isinstance(dflt, ast.Call) and unparse(dflt.func) in ('field', 'dataclasses.field'):
+                    dk = {k.arg: k.value for k in dflt.keywords}
+                    fac = dk.get('default_factory')
+                    if isinstance(fac, ast.Name) and fac.id in ('list', 'dict', 'set'):
+                        node = {'list': ast.List(elts=[], ctx=ast.Load()), 'dict': ast.Dict(keys=[], values=[]), 'set': ast.Call(func=ast.Name(id='set', ctx=ast.Load()), args=[], keywords=[])}[fac.id]
+                        p.heap[oid][fname] = Val(node, elems=[] if fac.id == 'list' else None)
+                    elif isinstance(dk.get('default'), ast.Constant):
+                        p.heap[oid][fname] = const_val(dk['default'].value)
+                    else:
+                        return None
+                else:
+                    return None
+            post = self.repo.resolve(ci.name, '__post_init__')
+            if post is None:
+                return [(p, ov)]
+            init, iargs, ikw = post, [], {}
+        else:
+            init, iargs, ikw = self.repo.resolve(ci.name, '__init__'), list(args), dict(kw)
+            if init is None:
+                return [(p, ov)] if not args and not kw else None
+        if depth >= self.max_depth + 2 or init.qualname in self._stack:
+            return None
+        outs = []
+        for r, _ in self._inline(e, p, fi, depth, init, 1, None, [ov] + iargs, ikw, None):
+            outs.append((r, ov))
+        return outs
 
     def _module_table(self, module, name):
         """value of a module-level dict display that is bound once (a dispatch table): keys and values evaluated in module scope"""
@@ -995,7 +1093,7 @@ class Tracer:
         """FuncInfo to inline for this call or None"""
         f = call.func
         if fval is not None and fval.closure is not None:
-            return fval.closure[0], 0, fval.closure[1]
+            return fval.closure[0], (1 if fval.bound else 0), fval.closure[1]
         if isinstance(f, ast.Name):
             if f.id in fi.module.functions and (f.id.startswith('_') or f.id in self.inline_extra):
                 return fi.module.functions[f.id], 0, None
@@ -1053,6 +1151,8 @@ class Tracer:
                         # of other classes (NodePath.get_list_path, ...) stay call events unless a rule asks for them
                         if (same_family and f.attr.startswith('_')) or t.qualname in self.inline_extra or f.attr in self.inline_extra:
                             return t, 0, None
+                        if self._plain_class(r, fi) is not None:
+                            return t, 0, None       # factory / helper of a private helper class
                         return None
                     if explicit_self and same_family:
                         return t, 1, None
@@ -1130,6 +1230,36 @@ class Tracer:
         if fv is not None and fv.partial is not None and fv.closure is not None:
             args = list(fv.partial[0]) + list(args)
             kw = dict(fv.partial[1], **kw)
+        hof = norm(f) if isinstance(f, (ast.Name, ast.Attribute)) else None
+        base_ = f
+        while isinstance(base_, ast.Attribute):
+            base_ = base_.value
+        if not isinstance(base_, ast.Name) or base_.id in p.env:
+            hof = None
+        if hof is not None and not (hof in ('map', 'filter') or (hof.split('.')[-1] in ('filterfalse', 'takewhile', 'dropwhile', 'starmap') and
+                                                                    (fi.module.imports.get(hof.split('.')[0]) == 'itertools' or fi.module.imports.get(hof) == 'itertools:' + hof))):
+            hof = None
+        if hof is not None and len(args) >= 2 and not kw and args[0].closure is not None and not any(isinstance(a.ast, ast.Starred) for a in args):
+            # map / filter / itertools.takewhile ... (f, xs): f is called for the elements of xs - interpreted like the
+            # comprehension [f(x) for x in xs] (its calls are recorded, in a loop), then the call itself is recorded
+            k = len(self._stack) + p.loop * 100
+            fn_, it_, x_ = '$hof_f%d' % k, '$hof_it%d' % k, '$hof_x%d' % k
+            p.env[fn_], p.env[it_] = args[0], args[1]
+            arg_x = ast.Starred(value=ast.Name(id=x_, ctx=ast.Load()), ctx=ast.Load()) if hof.endswith('starmap') else ast.Name(id=x_, ctx=ast.Load())
+            comp = ast.ListComp(elt=ast.Call(func=ast.Name(id=fn_, ctx=ast.Load()), args=[arg_x], keywords=[]),
+                                generators=[ast.comprehension(target=ast.Name(id=x_, ctx=ast.Store()), iter=ast.Name(id=it_, ctx=ast.Load()), ifs=[], is_async=0)])
+            ast.copy_location(comp, e)
+            ast.fix_missing_locations(comp)
+            outs_ = []
+            plain = Val(args[0].ast, tags=args[0].tags)
+            for q, _ in self._comp(comp, p, fi, depth):
+                for nm in (fn_, it_, x_):
+                    q.env.pop(nm, None)
+                if q.status is not None:
+                    outs_.append((q, const_val(None)))
+                    continue
+                outs_.extend(self._do_call(e, q, fi, depth, fv, [plain] + list(args[1:]), kw))
+            return outs_
         if self._is_functools(f, fi, 'reduce') and len(args) in (2, 3) and not kw and args[0].closure is not None:
             # functools.reduce(f, xs, init): `acc = init; for x in xs: acc = f(acc, x)` - interpreted as that loop
             k = len(self._stack) + p.loop * 100
@@ -1161,6 +1291,14 @@ class Tracer:
             prev = base.partial or ([], {})
             pv.partial = (list(prev[0]) + list(args[1:]), dict(prev[1], **kw))
             return [(p, pv)]
+        if isinstance(f, ast.Name) and fv is None and f.id not in p.env and fi.module.namedtuple_fields(f.id) is None:
+            made = self._construct_local(e, f.id, p, fi, depth, args, kw)
+            if made is not None:
+                return made
+        if isinstance(f, ast.Name) and fv is not None and fv.closure is None and isinstance(fv.ast, ast.Name) and fv.ast.id in self.repo.classes and fv.ast.id not in p.env:
+            made = self._construct_local(e, fv.ast.id, p, fi, depth, args, kw)       # `cls(...)` inside a classmethod of the helper class
+            if made is not None:
+                return made
         if isinstance(f, ast.Name) and fv is None and f.id not in p.env:
             fields = fi.module.namedtuple_fields(f.id)
             if fields is not None and len(args) <= len(fields) and all(k in fields[len(args):] for k in kw) and not any(isinstance(a.ast, ast.Starred) for a in args):
@@ -1218,6 +1356,19 @@ class Tracer:
         ev = Event('call', callee=callee, attr=attr, recv=recv, args=list(args), kw=dict(kw), node=e, fn=fi.qualname,
                    facts=tuple(p.facts), depth=depth, result=res, in_loop=p.loop > 0)
         p.events.append(ev)
+        if fv is not None and fv.recv is not None and p.heap and attr in ('append', 'extend', 'insert', 'add', 'update', 'setdefault', 'pop', 'popitem', 'remove', 'discard', 'clear', 'sort', 'reverse', '__setitem__', '__delitem__'):
+            # a container held in an attribute of a local object is changed in place: what the attribute holds is no longer the value it was given
+            for oid_, attrs_ in p.heap.items():
+                for an_, av_ in list((attrs_ or {}).items()):
+                    if av_ is fv.recv and attr in ('append', 'add') and len(args) == 1 and isinstance(av_.ast, (ast.List, ast.Set)) and 'mutated' not in av_.tags:
+                        # accumulate-by-append, as for a local list: the elements stay symbolic and the container is known to be non-empty
+                        elems_ = list(av_.elems or []) + [args[0]]
+                        attrs_[an_] = Val(ast.List(elts=[x.ast for x in elems_], ctx=ast.Load()), tags=av_.tags | args[0].tags, elems=None if p.loop > 0 else elems_)
+                    elif av_ is fv.recv:
+                        attrs_[an_] = Val(ast.Attribute(value=ast.Name(id='$obj%d' % oid_, ctx=ast.Load()), attr=an_, ctx=ast.Load()), tags=frozenset(av_.tags) | {'maybe-empty', 'mutated'})
+        for a_ in list(args) + list(kw.values()) + ([fv.partial[0][0]] if fv is not None and fv.bound and fv.partial else []):
+            if a_.obj is not None and a_.obj[1] in p.heap:
+                p.heap[a_.obj[1]] = None       # handed to code that is not interpreted: its attributes are no longer known
         if isinstance(f, ast.Attribute) and isinstance(f.value, ast.Name) and f.attr in ('pop', 'clear', 'remove', 'discard', 'popitem') \
                 and f.value.id in p.env and isinstance(p.env[f.value.id].ast, (ast.List, ast.Set, ast.Dict)):
             p.env[f.value.id] = Val(ast.Name(id=f.value.id, ctx=ast.Load()), tags=p.env[f.value.id].tags)
@@ -1251,7 +1402,9 @@ class Tracer:
                     recv_val = Val(r, tags=fv.tags)
                 else:
                     recv_val = p.env.get('self') or Val(ast.Name(id='self', ctx=ast.Load()))
-                if t.is_classmethod:
+                if t.is_classmethod and isinstance(recv_val.ast, ast.Name) and recv_val.ast.id in self.repo.classes:
+                    pass        # called on the class itself
+                elif t.is_classmethod:
                     recv_val = Val(ast.Call(func=ast.Name(id='type', ctx=ast.Load()), args=[recv_val.ast], keywords=[]))
                 bound_args = [recv_val] + bound_args
         defaults = a.defaults
@@ -1374,6 +1527,19 @@ def _lazy_generator(t):
                     return False
                 q = getattr(q, '_parent', None)
     return True
+
+
+def _never_none(v):
+    n = v.ast
+    if v.const is not NOCONST:
+        return v.const is not None
+    if isinstance(n, ast.BinOp) and isinstance(n.op, (ast.BitAnd, ast.BitOr, ast.BitXor, ast.LShift, ast.RShift, ast.Sub, ast.Mult, ast.FloorDiv, ast.Mod, ast.Pow, ast.Add, ast.Div)):
+        return True
+    if isinstance(n, (ast.Compare, ast.JoinedStr, ast.List, ast.Tuple, ast.Dict, ast.Set, ast.ListComp, ast.DictComp, ast.SetComp, ast.GeneratorExp, ast.Lambda)):
+        return True
+    if isinstance(n, ast.UnaryOp) and isinstance(n.op, (ast.Not, ast.USub, ast.Invert)):
+        return True
+    return False
 
 
 def _holds_function(v):
